@@ -296,3 +296,77 @@ def _lazy_values(model, methods, fillers, key, init: State):
         res = Analyzer(model, fi).run(init)
         return [(s.facts, v, fi, res) for s, v, _n in res.returns]
     return None
+
+
+def sh4_bracket(ctx: Ctx):
+    """SH4-BRACKET: the lazy definition of raw_host (split_netloc via the filler) never carries the brackets of an IP literal,
+    so a value written under cache key 'raw_host' anywhere else - the parser, a classmethod constructor, a modifier that
+    pre-fills the cache of its result - must not be the direct result of a function that can return a bracketed host,
+    unless the path excludes the bracket.  Judged: stores whose value is exactly such a call; any other value is left to SH4."""
+    from ..interp import subject
+    model = ctx.model
+    rule = "SH4-BRACKET"
+    ctx.rule(rule, floor=2, what="a raw_host cache entry written outside the lazy filler is never the bracketed form the host encoder returns")
+    producers = {}
+    for fi in model.all_funcs():
+        if fi.module != "_url" or fi.cls:
+            continue
+        r = analyze(model, fi)
+        for _s, v, node in r.returns:
+            parts = flatten(v)
+            if parts and parts[0][0] == "lit" and isinstance(parts[0][1], str) and parts[0][1].startswith("["):
+                producers.setdefault(("global", fi.module, fi.name), (fi, node))
+    if not producers:
+        raise AnalysisError("SH4-BRACKET: no function of _url returns a bracketed host (anchor vanished)")
+    for (_g, _m, name), (pfi, node) in sorted(producers.items()):
+        ctx.functions.add(pfi.qual)
+    methods = model.methods("_url", "URL")
+    funcs = [fi for fi in model.all_funcs() if fi.module == "_url" and (not fi.cls or fi.cls == "URL")]
+    judged = 0
+    for fi in funcs:
+        stores, always, _r = cache_stores(model, fi)
+        if "raw_host" not in stores:
+            continue
+        if fi.cls and "raw_host" in always and fi.name != "raw_host" and not fi.name.startswith("__") and \
+                not any(v[0] == "call" and v[1] in producers for v, _s, _root in stores["raw_host"]):
+            continue        # the lazy filler: the reference definition
+        ctx.functions.add(fi.qual)
+        seen = set()
+        for v, st, _root in stores["raw_host"]:
+            stripped = v[0] == "sub" and v[2] == ("slice", ("const", 1), ("const", -1), ("const", None))
+            core = v[1] if stripped else v
+            if not (core[0] == "call" and core[1] in producers):
+                continue
+            arg = core[2][0] if core[2] else None
+            has = truth(("cmp", "In", ("const", "["), core), st.facts)
+            colon = truth(("cmp", "In", ("const", ":"), arg), st.facts) if arg is not None else None
+            verdict = None
+            if stripped:
+                verdict = (has is True, "the first and last character are removed on a path that does not establish the brackets")
+            elif has is False or colon is False or (arg is not None and arg[0] == "const"):
+                verdict = (True, "")
+            else:
+                other = [fk for fk in st.facts if fk != core and subject(fk) == core and
+                         not (fk[0] == "cmp" and fk[1] == "In" and fk[2] == ("const", "["))]
+                # `x is None` / `x == <text without bracket>`: when true the value is that constant, when false they say nothing
+                pinned = [fk for fk in other if fk[0] == "cmp" and fk[1] in ("Is", "Eq") and fk[2] == core and fk[3][0] == "const"
+                          and not (isinstance(fk[3][1], str) and "[" in fk[3][1])]
+                other = [fk for fk in other if fk not in pinned]
+                if any(st.facts[fk] is True for fk in pinned):
+                    verdict = (True, "")
+                elif other:
+                    raise AnalysisError(f"SH4-BRACKET: {fi.qual} guards the pre-filled host with {show(other[0])[:60]} (unknown idiom)")
+                else:
+                    verdict = (False, f"{show(core)[:60]} can return '[v6]' and no test on this path excludes it")
+            key = (stripped, verdict)
+            if key in seen:
+                continue
+            seen.add(key)
+            judged += 1
+            ctx.instance(rule)
+            ctx.ob(rule, fi.qual, "cache['raw_host']: " + ("brackets removed" if stripped else "encoder result stored as it is"), verdict[0],
+                   f"raw_host is pre-filled with a value that keeps the brackets of an IPv6 literal ({verdict[1]}): the lazy definition "
+                   "(split_netloc) never has them, so an unpickled copy disagrees and host_subcomponent brackets it twice",
+                   where(fi, fi.node), sample="'[' in host decides between host[1:-1] and host")
+    if not judged:
+        raise AnalysisError("SH4-BRACKET: no pre-filled raw_host entry comes from the host encoder (anchor vanished)")
